@@ -339,14 +339,15 @@ AtMostOnceS(s) == \A i \in 1..Len(s.conn) : s.conn[i].dc <= 1 /\ s.conn[i].uc <=
 OneLiveS(s) == \A n \in Names : Cardinality({i \in 1..Len(s.conn) : s.conn[i].name = n /\ Live(s.conn[i])}) <= 1
 
 \* (2) a deploy request returns only when its (eager) connector is deployed;
-\*     a first use returns only when the lazily deployed connector is deployed
+\*     a first use returns only when the lazily deployed connector has been deployed (a concurrent explicit
+\*     undeploy of the deployment in use is the caller's race, not constrained by the statement)
 DeployOK(s, r) == (s.rk[r] = "deploy" /\ ~IsLazy(s.rd[r])) =>
                     (s.dmap[s.rd[r]] # 0 /\ s.conn[s.dmap[s.rd[r]]].state = "deployed")
 DeployStepOK(s, s2) == \A r \in Reqs : Returned(s, s2, r) => DeployOK(s2, r)
 UseOK(s, s2, r) ==
   (s2.rk[r] = "use" /\ s.stack[r] # <<>> /\ Top(s, r).fn = "use" /\ Top(s, r).inst # 0) =>
      LET c == Top(s, r).inst IN           \* the FutureConnector the request holds
-     s2.conn[c].real # 0 /\ s2.conn[s2.conn[c].real].state = "deployed"
+     s2.conn[c].real # 0 /\ s2.conn[s2.conn[c].real].state \in {"deployed", "undeploying", "undeployed"}
 UseStepOK(s, s2) == \A r \in Reqs : Returned(s, s2, r) => UseOK(s, s2, r)
 
 \* (3) a wrapped deployment is not undeployed while a wrapper of it is live
